@@ -142,8 +142,8 @@ theorem not_mem_of_filterMap_ingrIdx_nil {extra : List Item} (h : extra.filterMa
   rw [h] at this; cases this
 
 /-- one change keeps the invariant; a new section needs that no block is open -/
-theorem Trans.iref {env : Env} {b : Bool} {s s' : Col α} (ht : Trans env b s s') (hi : Inv env s) (h : IRefInv s)
-    (hb0 : b = true → blockItems s.block = []) : IRefInv s' := by
+theorem Trans.iref {env : Env} {b : Ev α} {s s' : Col α} (ht : Trans env b s s') (hi : Inv env s) (h : IRefInv s)
+    (hb0 : b.isSec = true → blockItems s.block = []) : IRefInv s' := by
   cases ht with
   | keep hsec hcur hi' hc hb =>
     refine ⟨?_, ?_, ?_⟩
